@@ -27,7 +27,9 @@ ObsView(r) == {<<c[1], c[2], c[3], c[4]>> : c \in {r.view[i] : i \in 1..Len(r.vi
 \* outcome is specified) the observed view must be the model's view
 TEv == /\ Is("ev")
        /\ StepAll([th |-> Rec.th, m |-> Rec.m, mc |-> Rec.mc, a |-> Rec.a, j |-> Rec.j])
-       /\ (~failed' /\ ~unspec' /\ Rec.hasview) => (ObsView(Rec) \ CpuDefaultCells') = ViewAll'
+       \* ... and an event the model rejects has no effect on the timelines: at the first
+       \* rejected event the view is still the one before it (ViewAll' = ViewAll then)
+       /\ (~unspec' /\ Rec.hasview /\ (~failed' \/ ~failed)) => (ObsView(Rec) \ CpuDefaultCells') = ViewAll'
 
 TEnd == /\ Is("end")
         /\ unspec \/ Rec.verdict = VerdictAll
